@@ -12,12 +12,12 @@ HASHSEEDS = {"quick": [0, 1], "thorough": [0, 1, 2, 3]}
 BUDGET_S = {"quick": 120, "thorough": 1200}
 EXHAUSTIVE = {"quick": False, "thorough": False}
 RULE = ("random edit histories (length 5..40) over a store of live BayesianNetwork objects: constructor with "
-        "ebunch/latents, add_node(s) incl. duplicates and latent flags, add_edge(s) incl. self loops, cycle-closing "
-        "edges, implicit nodes, non-atomic add_edges_from, remove_node(s) incl. absent nodes, add_cpds with "
+        "ebunch/latents, add_node(s) incl. duplicates, latent flags (bool, list, too-short list) and weight(s)= (right/wrong length, None, []), "
+        "add_edge(s) incl. self loops, cycle-closing edges, implicit nodes, non-atomic add_edges_from, each with and without weight(s)=, remove_node(s) incl. absent nodes, add_cpds with "
         "right/wrong/unknown parents and normalised/unnormalised/uniform tables, remove_cpds, do (inplace or not, "
         "single name or list, unknown nodes, partial CPDs), copy, get_random_cpds (int/dict/None, inplace or not); "
         "every op targets a random live model (originals and copies alike).  After every step: error kind, and for "
-        "every live model nodes (ordered), per-node ordered successors/predecessors, latents, CPD list (variable, "
+        "every live model nodes (ordered), per-node ordered successors/predecessors, latents, stored node/edge weights, CPD list (variable, "
         "ordered parents, cardinalities, every table entry), nx.is_directed_acyclic_graph, and the sharing graph "
         "(latents sets / CPD objects compared with `is` against the model's heap locations).  Also DBN histories "
         "(add_node(s), add_edge(s) with slices 0..3), JunctionTree histories (add_node(s), add_edge(s) with and "
@@ -32,7 +32,7 @@ ASSUMPTIONS = ["node names (str, int, tuples) are interned to nat identifiers",
                "non-negative dyadic entries and non-zero column sums (numpy nan from 0/0 is not modelled)",
                "query answers are a function of the compared content (nodes, edges, CPD tables); queries are not re-run"]
 
-ERR = {0: "ok", 1: "ValueError", 2: "AttributeError", 3: "NotImplementedError", 4: "NetworkXError", 5: "bad-id"}
+ERR = {0: "ok", 1: "ValueError", 2: "AttributeError", 3: "NotImplementedError", 4: "NetworkXError", 5: "bad-id", 6: "IndexError"}
 
 
 # ------------------------------------------------------------------ case generation
@@ -82,6 +82,24 @@ def gen_cpd(rng, sh, card, N, how=None):
     cols = rand_cols(rng, vcard, ncol, mode)
     return {"v": v, "vcard": vcard, "ev": pa, "ecard": ecard,
             "cols": [[[x.numerator, x.denominator] for x in col] for col in cols]}
+
+
+def gen_weights(rng, k):
+    """optional weight arguments: none, a list of the right length (ints, sometimes None), an empty list, or a
+    list of the wrong length (ValueError before anything is added)"""
+    r = rng.random()
+    if r < 0.5:
+        return {}
+    if r < 0.85:
+        return {"ws": [rng.choice([None, 1, 2, 3, 5, 8, 9]) if rng.random() < 0.25 else rng.randint(1, 9) for _ in range(k)]}
+    if r < 0.9:
+        return {"ws": []}
+    return {"ws": [rng.randint(1, 9) for _ in range(rng.choice([n for n in (k - 1, k + 1, k + 2) if n > 0]))]}
+
+
+def wire_ws(o):
+    """weights on the wire: 0 = None; [] = weights argument absent or falsy"""
+    return [0 if w is None else w for w in (o.get("ws") or [])]
 
 
 def would_cycle(edges, u, v):
@@ -160,7 +178,11 @@ def gen_bn_history(rng, length):
         elif r < 0.16:
             k = rng.choice([1, 1, 1, 2, 3])
             xs = [[rng.randrange(N), rng.random() < 0.25] for _ in range(k)]
-            ops.append({"op": "add_nodes", "m": a, "xs": xs, "api": "one" if k == 1 and rng.random() < 0.7 else "many"})
+            o = {"op": "add_nodes", "m": a, "xs": xs, "api": "one" if k == 1 and rng.random() < 0.7 else "many"}
+            o.update(gen_weights(rng, k))
+            if o["api"] == "many" and rng.random() < 0.08:
+                o["latshort"] = rng.randrange(k)        # latent list too short: IndexError half-way
+            ops.append(o)
             sh["nodes"] |= {x for x, _ in xs}
         elif r < 0.40:
             k = rng.choice([1, 1, 1, 1, 2, 3, 4])
@@ -170,7 +192,11 @@ def gen_bn_history(rng, length):
                 if rng.random() < 0.85 and (u == v):
                     v = (u + 1) % N
                 es.append([u, v])
-            ops.append({"op": "add_edges", "m": a, "es": es, "api": "one" if k == 1 and rng.random() < 0.7 else "many"})
+            o = {"op": "add_edges", "m": a, "es": es, "api": "one" if k == 1 and rng.random() < 0.7 else "many"}
+            o.update(gen_weights(rng, k))
+            ops.append(o)
+            if o.get("ws") and len(o["ws"]) != k and o["api"] == "many":
+                continue
             for u, v in es:
                 if not add_edge_sh(sh, u, v):
                     break
@@ -267,8 +293,9 @@ def gen_dbn_history(rng, length):
         r = rng.random()
         if r < 0.2:
             k = rng.choice([1, 1, 2, 3])
-            ops.append({"op": "add_nodes", "xs": [rng.randrange(names) for _ in range(k)],
-                        "api": "one" if k == 1 else "many"})
+            o = {"op": "add_nodes", "xs": [rng.randrange(names) for _ in range(k)], "api": "one" if k == 1 else "many"}
+            o.update(gen_weights(rng, k))
+            ops.append(o)
         else:
             k = rng.choice([1, 1, 1, 2, 3])
             es = []
@@ -277,7 +304,9 @@ def gen_dbn_history(rng, length):
                 s = rng.choice([0, 0, 0, 1, 1, 2, 3])
                 t = rng.choice([s, s, s + 1, s + 1, max(0, s - 1), s + 2])
                 es.append([[a, s], [b, t]])
-            ops.append({"op": "add_edges", "es": es, "api": "one" if k == 1 and rng.random() < 0.7 else "many"})
+            o = {"op": "add_edges", "es": es, "api": "one" if k == 1 and rng.random() < 0.7 else "many"}
+            o.update(gen_weights(rng, k))      # DBN.add_edges_from / add_nodes_from accept and ignore keyword arguments
+            ops.append(o)
     return {"kind": "dbn", "ops": ops}
 
 
@@ -297,7 +326,9 @@ def gen_jt_history(rng, length):
                 if u == v and rng.random() < 0.8:
                     v = (u + 1) % nc
                 es.append([u, v])
-            ops.append({"op": "add_edges", "es": es, "api": "one" if k == 1 and rng.random() < 0.7 else "many"})
+            o = {"op": "add_edges", "es": es, "api": "one" if k == 1 and rng.random() < 0.7 else "many"}
+            o.update(gen_weights(rng, k))      # UndirectedGraph.add_edges_from(ebunch, weights) checks the length
+            ops.append(o)
     return {"kind": "jt", "ops": ops}
 
 
@@ -412,22 +443,28 @@ def snap_real(m, idx):
         cpds.append((idx[repr(c.variable)], int(c.cardinality[0]), [idx[repr(v)] for v in c.variables[1:]],
                      [int(k) for k in c.cardinality[1:]],
                      [[float(vals[r][j]) for r in range(vals.shape[0])] for j in range(vals.shape[1])]))
-    return nodes, succ, pred, lat, cpds
+    nw = {idx[repr(x)]: (m.nodes[x].get("weight") or 0) for x in m.nodes()}
+    ew = {"%d>%d" % (idx[repr(u)], idx[repr(v)]): (m.edges[u, v].get("weight") or 0) for u, v in m.edges()}
+    return nodes, succ, pred, lat, cpds, nw, ew
 
 
 def snap_model(mo):
-    nodes, edges, latloc, lat, cpds = mo
+    nodes, edges, latloc, lat, cpds, nwlog, ewlog = mo
     succ = {u: [v for (a, v) in edges if a == u] for u in nodes}
     pred = {u: [a for (a, v) in edges if v == u] for u in nodes}
     cl = []
     for loc, (v, vc, ev, ec, cols) in cpds:
         cl.append((v, vc, ev, ec, [[common.frac(x) for x in col] for col in cols]))
-    return nodes, succ, pred, sorted(lat), cl
+    # stored 'weight' attributes: the newest log entry of every existing node / edge (0 = None)
+    nw = {x: next((w for (y, w) in nwlog if y == x), 0) for x in nodes}
+    ew = {"%d>%d" % (u, v): next((w for (a, b, w) in ewlog if (a, b) == (u, v)), 0) for (u, v) in edges}
+    return nodes, succ, pred, sorted(lat), cl, nw, ew
 
 
 def cmp_snap(r, m):
     """None if equal, else a description"""
-    for nm, a, b in (("nodes", r[0], m[0]), ("succ", r[1], m[1]), ("pred", r[2], m[2]), ("latents", r[3], m[3])):
+    for nm, a, b in (("nodes", r[0], m[0]), ("succ", r[1], m[1]), ("pred", r[2], m[2]), ("latents", r[3], m[3]),
+                     ("node-weights", r[5], m[5]), ("edge-weights", r[6], m[6])):
         if a != b:
             return {"what": nm, "impl": a, "model": b}
     if len(r[4]) != len(m[4]):
@@ -444,12 +481,14 @@ def cmp_snap(r, m):
 
 
 def real_equal(a, b):
-    return cmp_snap(a, (b[0], b[1], b[2], b[3], b[4])) is None
+    return cmp_snap(a, b) is None
 
 
 def loose(r):
     """content up to adjacency order (copy() re-inserts the edges in G.edges() order)"""
-    return (r[0], {k: sorted(v) for k, v in r[1].items()}, {k: sorted(v) for k, v in r[2].items()}, r[3], r[4])
+    # copy() also drops the 'weight' attributes (observation, outside C15): weights are not part of this view
+    return (r[0], {k: sorted(v) for k, v in r[1].items()}, {k: sorted(v) for k, v in r[2].items()}, r[3], r[4],
+            {}, {})
 
 
 def consistent_cpds(m):
@@ -471,6 +510,8 @@ def exc_code(e):
         return 1
     if isinstance(e, AttributeError):
         return 2
+    if isinstance(e, IndexError):
+        return 6
     raise e
 
 
@@ -488,15 +529,23 @@ def apply_bn(o, M, names):
         m = M[o["m"]]
         if kind == "add_nodes":
             if o["api"] == "one":
-                m.add_node(nm(o["xs"][0][0]), latent=o["xs"][0][1])
+                kw = {"weight": o["ws"][0]} if o.get("ws") else {}
+                m.add_node(nm(o["xs"][0][0]), latent=o["xs"][0][1], **kw)
             else:
                 flags = [f for _, f in o["xs"]]
-                m.add_nodes_from([nm(x) for x, _ in o["xs"]], latent=flags[0] if len(set(flags)) == 1 else flags)
+                if "latshort" in o:
+                    lat = flags[:o["latshort"]]
+                else:
+                    lat = flags[0] if len(set(flags)) == 1 else flags
+                kw = {"weights": o["ws"]} if "ws" in o else {}
+                m.add_nodes_from([nm(x) for x, _ in o["xs"]], latent=lat, **kw)
         elif kind == "add_edges":
             if o["api"] == "one":
-                m.add_edge(nm(o["es"][0][0]), nm(o["es"][0][1]))
+                kw = {"weight": o["ws"][0]} if o.get("ws") else {}
+                m.add_edge(nm(o["es"][0][0]), nm(o["es"][0][1]), **kw)
             else:
-                m.add_edges_from([(nm(u), nm(v)) for u, v in o["es"]])
+                kw = {"weights": o["ws"]} if "ws" in o else {}
+                m.add_edges_from([(nm(u), nm(v)) for u, v in o["es"]], **kw)
         elif kind == "remove_nodes":
             if o["api"] == "one":
                 m.remove_node(nm(o["xs"][0]))
@@ -549,9 +598,14 @@ def wire_bn(o, M, names, idx, last=None):
         return [0, o["eb"], o["lat"]]
     a = o["m"]
     if k == "add_nodes":
-        return [1, a, [[x, bool(f)] for x, f in o["xs"]]]
+        flags = [bool(f) for _, f in o["xs"]]
+        if o["api"] == "many" and "latshort" in o:
+            flags = flags[:o["latshort"]]
+        ws = wire_ws(o)[:1] if o["api"] == "one" else wire_ws(o)
+        return [1, a, [x for x, _ in o["xs"]], ws, flags]
     if k == "add_edges":
-        return [2, a, o["es"]]
+        ws = wire_ws(o)[:1] if o["api"] == "one" else wire_ws(o)
+        return [2, a, o["es"], ws]
     if k == "remove_nodes":
         return [3, a, o["xs"]]
     if k == "add_cpds":
@@ -747,16 +801,16 @@ def run_dbn(case, drv):
             if o["op"] == "add_nodes":
                 wire.append([0, o["xs"]])
                 if o["api"] == "one":
-                    G.add_node(nm(o["xs"][0]))
+                    G.add_node(nm(o["xs"][0]), **({"weight": o["ws"][0]} if o.get("ws") else {}))
                 else:
-                    G.add_nodes_from([nm(a) for a in o["xs"]])
+                    G.add_nodes_from([nm(a) for a in o["xs"]], **({"weights": o["ws"]} if "ws" in o else {}))
             else:
                 wire.append([1, o["es"]])
                 es = [((nm(a), s), (nm(b), t)) for (a, s), (b, t) in o["es"]]
                 if o["api"] == "one":
-                    G.add_edge(*es[0])
+                    G.add_edge(*es[0], **({"weight": o["ws"][0]} if o.get("ws") else {}))
                 else:
-                    G.add_edges_from(es)
+                    G.add_edges_from(es, **({"weights": o["ws"]} if "ws" in o else {}))
             code = 0
         except Exception as e:
             code = exc_code(e)
@@ -795,11 +849,12 @@ def run_jt(case, drv):
                 else:
                     G.add_nodes_from([cl[a] for a in o["xs"]])
             else:
-                wire.append([1, [[[u, [var_id[x] for x in cl[u]]], [v, [var_id[x] for x in cl[v]]]] for u, v in o["es"]]])
+                wire.append([1, [[[u, [var_id[x] for x in cl[u]]], [v, [var_id[x] for x in cl[v]]]] for u, v in o["es"]],
+                             [] if o["api"] == "one" else wire_ws(o)])
                 if o["api"] == "one":
-                    G.add_edge(cl[o["es"][0][0]], cl[o["es"][0][1]])
+                    G.add_edge(cl[o["es"][0][0]], cl[o["es"][0][1]], **({"weight": o["ws"][0]} if o.get("ws") else {}))
                 else:
-                    G.add_edges_from([(cl[u], cl[v]) for u, v in o["es"]])
+                    G.add_edges_from([(cl[u], cl[v]) for u, v in o["es"]], **({"weights": o["ws"]} if "ws" in o else {}))
             code = 0
         except Exception as e:
             code = exc_code(e)
